@@ -7,6 +7,7 @@ import json, os, shutil, concurrent.futures, collections
 import lib
 
 D5_KIND = 'decimal-whitespace-in-exponent'
+MORE = dict(note='further case of this kind; see coverage.mismatches_by_kind')
 
 def text_of(b):
     return ''.join(chr(c) if 32 <= c < 127 else '\\t' if c == 9 else '\\x%02x' % c for c in b)
@@ -123,10 +124,13 @@ def execute(rep, exe, cases, w, expect_cases=None):
                     k = kind_of(cs, m)
                     perkind[k] += 1
                     n += 1
-                    det = dict(message='%s %s' % (m['rd'], text_of(cs['lit'])), reader=m['rd'], what=m['what'], observed_limbs=m['obs'], expected_limbs=m['exp'],
-                               errors=m['errs'], reader_returned=m['ret'])
-                    if perkind[k] <= 25:
-                        det['case'] = cs
+                    if perkind[k] <= 200:
+                        det = dict(message='%s %s' % (m['rd'], text_of(cs['lit'])), reader=m['rd'], what=m['what'], observed_limbs=m['obs'], expected_limbs=m['exp'],
+                                   errors=m['errs'], reader_returned=m['ret'])
+                        if perkind[k] <= 25:
+                            det['case'] = cs
+                    else:
+                        det = MORE              # counted, details only for the first 200 of a kind
                     rep.violation(k, det)
     os.unlink(mis)
     rep.cov['mismatches_by_kind'] = dict(perkind)
